@@ -1,4 +1,5 @@
 """C09 — dispatch_once.  Model/Once.v (thread automaton tstep + global model), Gen_once (generated)."""
+import os
 import common
 import conc
 import driver
@@ -31,14 +32,34 @@ ASSUMPTIONS = ["the inline fast path of dispatch/once.h is a plain read followed
                "fair scheduling of the owner thread for the liveness clause"]
 
 
-def run_harness(ctx, seed, rounds, permille):
+class HarnessProblem(Exception):
+    """the harness could not be run to its end: kind = 'hang' (no exit within the limit, twice) or 'crash'"""
+    def __init__(self, kind, msg):
+        Exception.__init__(self, msg)
+        self.kind = kind
+
+
+def run_harness(ctx, seed, rounds, permille, timeout=300):
     exe, msg = common.build_harness("c09_once", ["c09_once.c"], whitebox=False, extra=["-I" + common.VERIF + "/harness"])
     if exe is None:
-        raise RuntimeError("harness build failed: " + msg)
-    r = common.run([exe, str(seed), str(rounds), str(permille)], timeout=300)
+        raise HarnessProblem("crash", "harness build failed: " + msg)
+    r = common.run([exe, str(seed), str(rounds), str(permille)], timeout=timeout)
+    if r.returncode == 124:
+        # a wall-clock limit alone is no verdict (machine load): once more, alone, with ten times the limit
+        r = common.run([exe, str(seed), str(rounds), str(permille)], timeout=10 * timeout)
+        if r.returncode == 124:
+            raise HarnessProblem("hang", "no exit within %d s (second run; the first gave up after %d s)" % (10 * timeout, timeout))
     if r.returncode != 0:
-        raise RuntimeError("harness failed rc=%s: %s" % (r.returncode, r.stderr[-1500:]))
+        raise HarnessProblem("crash", "harness failed rc=%s: %s" % (r.returncode, (r.stderr or "")[-1500:]))
     return r.stdout
+
+
+def coq_eval_twice(name, imports, body, timeout):
+    """driver.coq_eval; a run that fails (time limit under load, memory) is repeated once with ten times the limit"""
+    ok, vals, raw = driver.coq_eval(name, imports, body, timeout=timeout)
+    if not ok:
+        ok, vals, raw = driver.coq_eval(name + "_again", imports, body, timeout=10 * timeout)
+    return ok, vals, raw
 
 
 def analyse(text, label):
@@ -157,8 +178,8 @@ def global_replay(name, groups, chunk=40):
         body.append(";\n".join(rows))
         body.append("].")
         body.append("Eval vm_compute in map OnceR.replay rounds.")
-        ok, vals, raw = driver.coq_eval("%s_%d" % (name, c0), ["Word", "Conc", "Replay", "Gen_once", "Once", "OnceR"], "\n".join(body) + "\n",
-                                        timeout=900)
+        ok, vals, raw = coq_eval_twice("%s_%d" % (name, c0), ["Word", "Conc", "Replay", "Gen_once", "Once", "OnceR"], "\n".join(body) + "\n",
+                                       timeout=900)
         if not ok or len(vals) != 1:
             raise RuntimeError("coq replay evaluation failed: " + raw[-2000:])
         xs = driver.ints(vals[0])
@@ -170,8 +191,12 @@ def global_replay(name, groups, chunk=40):
 
 
 def replay_mismatches(res, groups, seedlabel):
-    """a round that is not replayed completely, or whose end state is not the completed gate, is a mismatch"""
-    mism, okc = [], 0
+    """returns (definitive mismatches, rounds for which no order of the recorded actions was found, number of rounds replayed).
+    Definitive: a thread trace the automaton rejects, or a completely replayed round whose end state is not the completed gate.
+    No order found: the order search and the scheduler are incomplete, so such a round alone is not a verdict (see judge_seed)"""
+    mism, notfound, okc = [], [], 0
+    if len(res) != len(groups):
+        return [{"what": "whole-round replay: %d results for %d rounds" % (len(res), len(groups)), "detail": {"label": seedlabel}}], [], 0
     for r, (rd, grp) in zip(res, groups):
         nact = r["done"] + r["left"]
         if r["left"] != 0 or r["events_not_abstracted"] != 0:
@@ -181,50 +206,123 @@ def replay_mismatches(res, groups, seedlabel):
                     stuck = {"thread": thr, "self": sv, "event": tr[r["stuck_event_index"]].brief(),
                              "stamp": tr[r["stuck_event_index"]].seq,
                              "before_it": "the hidden plain read of the inline wrapper" if r["stuck_hidden_kind"] == 1 else None}
-            mism.append({"what": "whole-round replay on the global model Once.gstep: the model does not accept the recorded actions of "
-                         "the round in any order the scheduler tries (first unmatched action in detail): the implementation took a step "
-                         "the global model does not have in that state",
-                         "detail": {"label": seedlabel, "round": rd, "first_unmatched": stuck, "executed": r["done"], "of": nact,
-                                    "state": {k: r[k] for k in REPLAY_OUT[6:]},
-                                    "traces": [{"self": sv, "trace": ["%d:%s" % (e.seq, e.brief()) for e in tr][:30]} for (sv, tr, _) in grp][:8]}})
+            m = {"what": "whole-round replay on the global model Once.gstep: the model does not accept the recorded actions of "
+                 "the round in any order the search / the scheduler tried (first unmatched action in detail): the implementation took "
+                 "a step the global model does not have in that state",
+                 "detail": {"label": seedlabel, "round": rd, "first_unmatched": stuck, "executed": r["done"], "of": nact,
+                            "state": {k: r[k] for k in REPLAY_OUT[6:]},
+                            "traces": [{"self": sv, "trace": ["%d:%s" % (e.seq, e.brief()) for e in tr][:30]} for (sv, tr, _) in grp][:8]}}
+            (mism if r["events_not_abstracted"] != 0 else notfound).append(m)
             continue
         bad = [k for k, want in (("inv_b", 1), ("word_is_done", 1), ("starts", 1), ("finished", 1), ("early_ret", 0), ("all_idle", 1),
                                  ("nobody_asleep", 1)) if r[k] != want]
         if bad:
             mism.append({"what": "whole-round replay on the global model Once.gstep: the state the model reaches by replaying the round is "
-                         "not the completed gate (inv_b = OnceR.inv_b, proved true on reachable states)",
+                         "not the completed gate (inv_b = OnceR.inv_b is true on every reachable state by theorem: a false value "
+                         "would mean the replay machinery left the model)",
                          "detail": {"label": seedlabel, "round": rd, "wrong": bad, "state": {k: r[k] for k in REPLAY_OUT[6:]}}})
             continue
         okc += 1
-    return mism, okc
+    return mism, notfound, okc
+
+
+def params_of(ctx, i):
+    """the i-th run of the plan: (seed, rounds, permille)"""
+    return ctx.seed * 1000 + i, (60 if ctx.tier == "quick" else 300), [0, 150, 400][i % 3]
+
+
+def judge_seed(ctx, seed, rounds, permille, tag):
+    """run the harness with these arguments and judge the recording: API oracle, per-thread conformance (Once.conform inside
+    Coq), whole-round replay on the global model.  Returns (failures, mismatches, traces, statistics); every failure / mismatch
+    carries the arguments of the run (replay() re-executes exactly them)."""
+    par = {"seed": seed, "rounds": rounds, "permille": permille}
+    label = "seed%d" % seed
+    total = {}
+
+    def stamp(d):
+        d.update(par)
+        if isinstance(d.get("detail"), dict):
+            d["detail"].update(par)
+        return d
+
+    try:
+        text = run_harness(ctx, seed, rounds, permille)
+    except HarnessProblem as e:
+        if e.kind == "hang":
+            return [stamp({"key": "%s:hang" % label, "label": label, "what": "the racing dispatch_once callers did not all return: " + str(e)})], [], [], total
+        return [], [stamp({"what": "the stress client could not be run to its end (nothing was judged for this run)", "detail": {"error": str(e)}})], [], total
+    fails, tr, st, groups = analyse(text, label)
+    total.update(st)
+    mism = []
+    if st["rounds"] != rounds or not tr:
+        mism.append({"what": "the recording is incomplete: %d of %d rounds reported, %d thread traces (truncated output? hook "
+                     "compiled out?)" % (st["rounds"], rounds, len(tr)), "detail": {"label": label}})
+    # whole-round replay
+    try:
+        res = global_replay("c09_replay_%s_%d" % (tag, os.getpid()), groups)
+        rm, notfound, okc = replay_mismatches(res, groups, label)
+    except RuntimeError as e:
+        res, rm, notfound, okc = [], [{"what": "the whole-round replay could not be evaluated inside Coq (twice)", "detail": {"label": label, "error": str(e)[-1500:]}}], [], 0
+    total["rounds_total_for_replay"] = len(groups)
+    total["replay_actions"] = sum(r["done"] for r in res)
+    if notfound:
+        # the order search is untrusted and incomplete: a round it cannot order is counted, and the scenario is recorded and
+        # replayed once more; a mismatch only if it happens again, or for more than 2 percent of the rounds at once
+        total["rounds_without_order_first_run"] = len(notfound)
+        again = []
+        if len(notfound) <= max(1, len(groups) // 50):
+            try:
+                text2 = run_harness(ctx, seed, rounds, permille)
+                f2, _, st2, groups2 = analyse(text2, label + ":again")
+                fails += f2
+                res2 = global_replay("c09_replay_%s_again_%d" % (tag, os.getpid()), groups2)
+                rm2, again, okc2 = replay_mismatches(res2, groups2, label + ":again")
+                rm += rm2
+                if st2["rounds"] != rounds:
+                    again = again or notfound
+            except (HarnessProblem, RuntimeError):
+                again = notfound
+        else:
+            again = notfound
+        if again:
+            rm += again[:10]
+        else:
+            total["rounds_without_order_not_confirmed_by_second_run"] = len(notfound)
+    total["rounds_replayed_on_global_model"] = okc
+    # per-thread conformance
+    try:
+        try:
+            cres = conc.coq_conform("c09_conf_%s_%d" % (tag, os.getpid()), ["Word", "Conc", "Gen_once", "Once"], "conform", [(sv, t) for (sv, t, _, _) in tr])
+        except RuntimeError:
+            cres = conc.coq_conform("c09_conf_%s_again_%d" % (tag, os.getpid()), ["Word", "Conc", "Gen_once", "Once"], "conform",
+                                    [(sv, t) for (sv, t, _, _) in tr], timeout=9000)
+        if len(cres) != len(tr):
+            raise RuntimeError("%d answers for %d traces" % (len(cres), len(tr)))
+        for (i, idle), (sv, t, rd, thr) in zip(cres, tr):
+            if i != -1 or idle != 1:
+                mism.append({"what": "a recorded thread trace of the library is not accepted by the model's thread automaton "
+                             "(Once.tstep_vis): the implementation took a step the model does not have",
+                             "detail": {"round": rd, "thread": thr, "self": sv, "rejected_at": i,
+                                        "ended_idle": idle, "trace": [e.brief() for e in t][:40]}})
+    except RuntimeError as e:
+        mism.append({"what": "per-thread conformance could not be evaluated inside Coq (twice)", "detail": {"label": label, "error": str(e)[-1500:]}})
+    mism = mism[:10] + rm[:10] + mism[10:] + rm[10:]      # both kinds among the ones reported
+    return [stamp(f) for f in fails], [stamp(m) for m in mism], [(sv, t, rd, thr, seed) for (sv, t, rd, thr) in tr], total
 
 
 def correspond(ctx):
-    nseeds, rounds = (3, 60) if ctx.tier == "quick" else (12, 300)
-    fails, mism, rmism, alltr, total = [], [], [], [], {}
+    nseeds = 3 if ctx.tier == "quick" else 12
+    fails, mism, alltr, total = [], [], [], {}
     for i in range(nseeds):
-        seed = ctx.seed * 1000 + i
-        permille = [0, 150, 400][i % 3]
-        text = run_harness(ctx, seed, rounds, permille)
-        f, tr, st, groups = analyse(text, "seed%d" % seed)
+        seed, rounds, permille = params_of(ctx, i)
+        f, m, tr, st = judge_seed(ctx, seed, rounds, permille, "s%d" % i)
         fails += f
-        alltr += [(sv, t, rd, thr, seed) for (sv, t, rd, thr) in tr]
+        mism += m
+        alltr += tr
         for k, v in st.items():
             total[k] = total.get(k, 0) + v
-        res = global_replay("c09_replay_%d" % i, groups)
-        rm, okc = replay_mismatches(res, groups, "seed%d" % seed)
-        rmism += rm
-        total["rounds_replayed_on_global_model"] = total.get("rounds_replayed_on_global_model", 0) + okc
-        total["rounds_total_for_replay"] = total.get("rounds_total_for_replay", 0) + len(groups)
-        total["replay_actions"] = total.get("replay_actions", 0) + sum(r["done"] for r in res)
-    res = conc.coq_conform("c09_conf", ["Word", "Conc", "Gen_once", "Once"], "conform", [(sv, t) for (sv, t, _, _, _) in alltr])
-    for (i, idle), (sv, t, rd, thr, seed) in zip(res, alltr):
-        if i != -1 or idle != 1:
-            mism.append({"what": "a recorded thread trace of the library is not accepted by the model's thread automaton "
-                         "(Once.tstep): the implementation took a step the model does not have",
-                         "detail": {"seed": seed, "round": rd, "thread": thr, "self": sv, "rejected_at": i,
-                                    "ended_idle": idle, "trace": [e.brief() for e in t][:40]}})
-    mism = mism[:10] + rmism[:10] + mism[10:] + rmism[10:]      # both kinds among the ones reported
+    if not alltr and not mism and not fails:
+        mism.append({"what": "nothing was recorded: no thread trace in %d runs" % nseeds})
     distinct = len(set(tuple((e.kind, e.ok & 1, e.a == 18446744073709551615) for e in t) for (_, t, _, _, _) in alltr))
     samples = [{"self": sv, "trace": [e.brief() for e in t]} for (sv, t, _, _, _) in alltr[:3]]
     slept = [x for x in alltr if any(e.kind == 32 for e in x[1])][:2]
@@ -239,7 +337,10 @@ def correspond(ctx):
                     "(lib/replay.py), are replayed on the global model Once.gstep "
                     "(OnceR.replay inside Coq: an action is taken only when the model accepts it with the values the library "
                     "observed; every action must be consumed), the end state must be the completed gate (word ~0l, one start, "
-                    "finished, no early return, everybody outside and awake) and satisfy the boolean invariant OnceR.inv_b; API-level "
+                    "finished, no early return, everybody outside and awake); a round for which no order is found is counted and the "
+                    "run is recorded once more (mismatch if it happens again or for more than 2 percent of the rounds); the boolean "
+                    "invariant OnceR.inv_b is evaluated on the END state of every round only, as a consistency check of the replay "
+                    "machinery (it is true on reachable states by theorem and the replay only takes model steps); API-level "
                     "oracle: one initialiser run per predicate, no return stamp before the initialiser's end stamp, predicate ~0l "
                     "at the end; distinct = distinct shapes (event kinds, CAS outcomes, DONE observed) of thread traces",
             "samples": samples, "distribution": total, "traces_validated_against_impl": len(alltr),
@@ -247,15 +348,37 @@ def correspond(ctx):
 
 
 def replay(ctx, obj):
+    """re-executes the recorded runs (same seed, round count and perturbation) against the current build and judges them again
+    (oracle, per-thread conformance, whole-round replay).  1: a failure / mismatch shows again; 0: none does; 2: nothing could
+    be executed for this file"""
+    runs, other = {}, []
     for f in obj.get("failures", []):
         print("recorded failure:", f.get("what"))
-        lab = f.get("label", "seed1")
-        seed = int(lab.replace("seed", "")) if lab.startswith("seed") else 1
-        text = run_harness(ctx, seed, 60, [0, 150, 400][seed % 3])
-        f2, _, _, _ = analyse(text, lab)
-        print("re-run with seed %d: %d failures" % (seed, len(f2)))
-        for x in f2[:5]:
-            print("  ", x["what"])
+        if all(k in f for k in ("seed", "rounds", "permille")):
+            runs[(f["seed"], f["rounds"], f["permille"])] = 1
+        else:
+            other.append(f)
     for b in obj.get("broken", []):
-        print("no longer checks:", b)
-    return 1
+        d = b.get("detail") if isinstance(b, dict) else None
+        print("recorded as no longer checking:", str(b)[:600])
+        if isinstance(d, dict) and all(k in d for k in ("seed", "rounds", "permille")):
+            runs[(d["seed"], d["rounds"], d["permille"])] = 1
+        else:
+            other.append(b)
+    again = 0
+    for n, (seed, rounds, permille) in enumerate(sorted(runs)):
+        f2, m2, tr, _ = judge_seed(ctx, seed, rounds, permille, "r%d" % n)
+        print("re-run seed %d, %d rounds, perturbation %d/1000: %d oracle failures, %d mismatches (%d thread traces judged)" %
+              (seed, rounds, permille, len(f2), len(m2), len(tr)))
+        for x in (f2 + m2)[:6]:
+            print("  ", x["what"][:300], str(x.get("detail", ""))[:300])
+        again += len(f2) + len(m2)
+    for x in other:
+        print("not re-executable from this file (a proof, a tie or a crash of the check itself): only a full ./check C09 "
+              "re-establishes it:", str(x)[:400])
+    if again:
+        return 1
+    if runs:
+        print("does not reproduce")
+        return 0
+    return 2
